@@ -76,61 +76,40 @@ def Answer (T : Tree K B V) (pend : List (List (K × Entry V))) (b : B) (k : K) 
   | some e' => e = e'
   | none => Chain T k b e
 
-/-- the context a lookup operation addresses in state `s`: pending layers (innermost first), base block, key.
-    `lit = true` is the literal reading of the property: once the block of a block cache is itself committed the
-    context's chain starts at that block (its own committed writes count); `lit = false` is the code's notion of a
-    block cache's context: always the parent's chain. The two differ only for lookups through a block cache whose
-    block is already committed (finding C06-blockcache-after-commit). -/
-def Sys.ctx (s : Sys H K B V) (T : Tree K B V) (lit : Bool) : Op H K B V → Option (List (List (K × Entry V)) × B × K)
+/-- the context a lookup operation addresses in state `s`: pending layers (innermost first), base block, key. A block
+    cache's chain starts at the previous block while the block is being built and at the block itself once this block
+    cache has been committed (`BC.base`). -/
+def Sys.ctx (s : Sys H K B V) : Op H K B V → Option (List (List (K × Entry V)) × B × K)
   | .tget t k =>
     match alookup s.tcs t with
     | some tc =>
       match tc.main with
       | .block h =>
         match alookup s.bcs h with
-        | some bc => some ([tc.cache, bc.cache], (if lit && (T.find bc.hash).isSome then bc.hash else bc.prev), k)
+        | some bc => some ([tc.cache, bc.cache], bc.base, k)
         | none => none
       | .query b => some ([tc.cache], b, k)
     | none => none
   | .bget h k =>
     match alookup s.bcs h with
-    | some bc => some ([bc.cache], (if lit && (T.find bc.hash).isSome then bc.hash else bc.prev), k)
+    | some bc => some ([bc.cache], bc.base, k)
     | none => none
   | .qget b k => some ([], b, k)
   | .sget k b => some ([], b, k)
   | _ => none
 
 /-- C06 for one operation: a hit carries exactly the demanded value; a removed key misses -/
-def OpOK (s : Sys H K B V) (T : Tree K B V) (lit : Bool) (op : Op H K B V) : Prop :=
-  ∀ pend b k, s.ctx T lit op = some (pend, b, k) →
+def OpOK (s : Sys H K B V) (T : Tree K B V) (op : Op H K B V) : Prop :=
+  ∀ pend b k, s.ctx op = some (pend, b, k) →
     (∀ v, (s.step op).2 = .hit v → Answer T pend b k (.val v)) ∧
     (Answer T pend b k .tomb → (s.step op).2 = .miss)
 
 /-- C06 for every operation of a history executed from state `s` with committed tree `T` -/
-def AllOK (lit : Bool) : Sys H K B V → Tree K B V → List (Op H K B V) → Prop
+def AllOK : Sys H K B V → Tree K B V → List (Op H K B V) → Prop
   | _, _, [] => True
-  | s, T, op :: ops => OpOK s T lit op ∧ AllOK lit (s.step op).1 (s.treeStep T op) ops
+  | s, T, op :: ops => OpOK s T op ∧ AllOK (s.step op).1 (s.treeStep T op) ops
 
 /-- no LRU `Add` of the whole run reported an eviction -/
 def NoEviction (s : Sys H K B V) (ops : List (Op H K B V)) : Prop := (s.run ops).1.sc.evictions = s.sc.evictions
-
-/-- life-cycle discipline: no lookup goes through a block cache (directly or via a transaction cache on it) whose
-    block is already in the committed tree -/
-def Lifecycle : Sys H K B V → Tree K B V → List (Op H K B V) → Prop
-  | _, _, [] => True
-  | s, T, op :: ops => (s.ctx T true op = s.ctx T false op) ∧ Lifecycle (s.step op).1 (s.treeStep T op) ops
-
-def Lifecycle.dec [DecidableEq V] : (s : Sys H K B V) → (T : Tree K B V) → (ops : List (Op H K B V)) →
-    Decidable (Lifecycle s T ops)
-  | _, _, [] => isTrue trivial
-  | s, T, op :: ops =>
-    match (inferInstance : Decidable (s.ctx T true op = s.ctx T false op)),
-          Lifecycle.dec (s.step op).1 (s.treeStep T op) ops with
-    | isTrue h1, isTrue h2 => isTrue ⟨h1, h2⟩
-    | isFalse h1, _ => isFalse (fun h => h1 h.1)
-    | _, isFalse h2 => isFalse (fun h => h2 h.2)
-
-instance [DecidableEq V] (s : Sys H K B V) (T : Tree K B V) (ops : List (Op H K B V)) :
-    Decidable (Lifecycle s T ops) := Lifecycle.dec s T ops
 
 end Verif.SC
